@@ -5,6 +5,7 @@ import (
 	"time"
 	"encoding/json"
 	"fmt"
+	"sort"
 	"testing"
 
 	"github.com/cocosip/go-dicom-codecs/codec"
@@ -53,6 +54,10 @@ type Case struct {
 	NilInfo bool   `json:",omitempty"`
 	ParMode string `json:",omitempty"` // nil | foreign | typed-bad
 	ParVal  int    `json:",omitempty"`
+	// ParVals (modes typed-mix / foreign-mix): every parameter drawn on its own, so that a value
+	// that is only checked on some path (behind an early return taken for another field's value)
+	// is met together with the value that selects the path
+	ParVals map[string]int `json:",omitempty"`
 }
 
 func bps(p int) int {
@@ -270,6 +275,56 @@ func params(c *Case) dcodec.Parameters {
 			p.SetParameter(k, "not-a-number")
 		}
 		return p
+	case "foreign-mix":
+		p := dcodec.NewBaseParameters()
+		names := make([]string, 0, len(c.ParVals))
+		for k := range c.ParVals {
+			names = append(names, k)
+		}
+		sort.Strings(names)
+		for _, k := range names {
+			if k == "targetRatio" {
+				p.SetParameter(k, float64(c.ParVals[k]))
+			} else {
+				p.SetParameter(k, c.ParVals[k])
+			}
+		}
+		return p
+	case "typed-mix":
+		v := func(k string, def int) int {
+			if x, ok := c.ParVals[k]; ok {
+				return x
+			}
+			return def
+		}
+		switch c.Enc {
+		case "90", "92":
+			p := j2kl.NewLosslessParameters()
+			p.NumLevels, p.NumLayers, p.Rate, p.ProgressionOrder, p.TargetRatio = v("numLevels", p.NumLevels), v("numLayers", p.NumLayers), v("rate", p.Rate), uint8(v("progressionOrder", int(p.ProgressionOrder))), float64(v("targetRatio", int(p.TargetRatio)))
+			return p
+		case "91", "93":
+			p := j2ky.NewLossyParameters()
+			p.NumLevels, p.Rate, p.NumLayers, p.TargetRatio = v("numLevels", p.NumLevels), v("rate", p.Rate), v("numLayers", p.NumLayers), float64(v("targetRatio", int(p.TargetRatio)))
+			if x, ok := c.ParVals["quality"]; ok {
+				p.SetParameter("quality", x)
+			}
+			if x, ok := c.ParVals["progressionOrder"]; ok {
+				p.SetParameter("progressionOrder", x)
+			}
+			return p
+		case "201", "202", "203":
+			p := htj2k.NewHTJ2KParameters()
+			p.Quality, p.BlockWidth, p.BlockHeight, p.NumLevels = v("quality", p.Quality), v("blockWidth", p.BlockWidth), v("blockHeight", p.BlockHeight), v("numLevels", p.NumLevels)
+			return p
+		}
+		cd, _ := dcodec.GetGlobalRegistry().GetCodec(codecTS[c.Enc])
+		p := cd.GetDefaultParameters()
+		for _, k := range []string{"quality", "near", "predictor"} {
+			if x, ok := c.ParVals[k]; ok {
+				p.SetParameter(k, x)
+			}
+		}
+		return p
 	case "typed-bad":
 		switch c.Enc {
 		case "90", "92":
@@ -391,6 +446,10 @@ func checkCodec(c *Case, o *core.Outcome) {
 				o.Fail = core.Failf("mis-declared", "codestream not parseable: %v", e)
 				return
 			}
+			if e := j.Check(len(f)); e != nil {
+				o.Fail = core.Failf("mis-declared", "codec %s returned a codestream that is not well-formed: %v", c.Enc, e)
+				return
+			}
 			w, h, comps = int(j.Xsiz), int(j.Ysiz), j.Csiz
 		default:
 			j, e := walk.WalkJPEG(f, c.Enc == "80" || c.Enc == "81")
@@ -503,6 +562,15 @@ func Gen(t *rapid.T) *Case {
 		c.NilInfo = rapid.IntRange(0, 7).Draw(t, "nilinfo") == 0
 		c.ParMode = rapid.SampledFrom([]string{"nil", "nil", "foreign", "foreign-types", "typed-bad"}).Draw(t, "parmode")
 		c.ParVal = rapid.SampledFrom([]int{-1, 0, 1, 3, 7, 8, 100, 101, 255, 256, 1000, 1 << 30}).Draw(t, "parval")
+		if rapid.IntRange(0, 2).Draw(t, "mix") == 0 {
+			c.ParMode = rapid.SampledFrom([]string{"typed-mix", "foreign-mix"}).Draw(t, "mixmode")
+			c.ParVals = map[string]int{}
+			for _, k := range []string{"quality", "near", "predictor", "numLevels", "numLayers", "rate", "progressionOrder", "targetRatio", "blockWidth", "blockHeight"} {
+				if rapid.IntRange(0, 2).Draw(t, "set") > 0 {
+					c.ParVals[k] = rapid.SampledFrom([]int{-1, 0, 0, 1, 2, 4, 5, 7, 8, 16, 32, 64, 100, 101, 255, 256, 1000}).Draw(t, k)
+				}
+			}
+		}
 		need := 0
 		if c.W*c.H > 0 && c.C < 16 && c.BA <= 64 {
 			need = c.W * c.H * c.C * ((c.BA + 7) / 8)
